@@ -372,6 +372,11 @@ def prop_module(prop):
 def shard_main(argv):
     prop, tier, seed, shard, nshards, work, out = argv
     seed, shard, nshards = int(seed), int(shard), int(nshards)
+    # every conversion leaves the library's two worker threads blocked for ever; a thorough shard runs
+    # thousands of conversions, and with the default 8 MiB stacks their address space alone stops the
+    # machine from starting processes.  Small stacks keep the footprint of those leftovers negligible.
+    import threading
+    threading.stack_size(512 * 1024)
     env.silence_warnings()
     env.assert_code_under_test()
     ctx = Ctx(prop, tier, seed, shard, nshards, work)
